@@ -36,6 +36,8 @@ func runC12(p *core.Prog, r *core.Report) {
 	c12R6(p, r, "C12.R6")
 	c12R7(p, r)
 	c12R8(p, r)
+	// a transient fault on an upload is absorbed by sending the body again: the copy hands over a source that can rewind (shared with C05.R6)
+	c05R6(p, r, "C12.R9")
 }
 
 // c12R8: a body that ends early is recognised, and resumed with a Range request, only when the
